@@ -213,11 +213,19 @@ func (ex *Exec) intrinsic(fn *ssa.Function, args []Val, caller *frame) (Val, boo
 	case "strconv.Itoa":
 		i := args[0].(Int)
 		if i.sym() {
+			if r, ok := ex.formatSmallSym(i, true); ok {
+				return r, true
+			}
 			i = mkInt(64, ex.choose(i)) // one path per value (bounded by choose)
 		}
 		return strconv.Itoa(int(i.signed())), true
 	case "strconv.FormatUint":
 		i := args[0].(Int)
+		if i.sym() && args[1].(Int).C == 10 {
+			if r, ok := ex.formatSmallSym(i, false); ok {
+				return r, true
+			}
+		}
 		if i.sym() {
 			i = mkInt(64, ex.choose(i))
 		}
@@ -787,4 +795,26 @@ func (ex *Exec) nativeError(e error) Val {
 		return iface{}
 	}
 	return ex.errorVal(e.Error())
+}
+
+// formatSmallSym renders a symbolic non-negative integer below 100 in decimal
+// as a string of one or two *symbolic* digits (one path per digit count
+// instead of one per value). ok=false: the value may be negative or >= 100.
+func (ex *Exec) formatSmallSym(i Int, signed bool) (Val, bool) {
+	tb := ex.tb
+	t := i.T
+	w := i.W
+	if signed {
+		if ex.decide(ex.mkB(tb.Bin(OpSlt, t, tb.Const(0, w)))) {
+			return nil, false
+		}
+	}
+	digit := func(x *Term) Int { return ex.mkI(tb.Bin(OpAdd, tb.Resize(x, 8, false), tb.Const('0', 8))) }
+	if ex.decide(ex.mkB(tb.Bin(OpUlt, t, tb.Const(10, w)))) {
+		return symstr{digit(t)}, true
+	}
+	if ex.decide(ex.mkB(tb.Bin(OpUlt, t, tb.Const(100, w)))) {
+		return symstr{digit(tb.Bin(OpUDiv, t, tb.Const(10, w))), digit(tb.Bin(OpURem, t, tb.Const(10, w)))}, true
+	}
+	return nil, false
 }
